@@ -9,6 +9,8 @@ import (
 	"sort"
 	"strconv"
 	"strings"
+	"sync"
+	"sync/atomic"
 	"time"
 
 	"github.com/Trisia/randomness/detect"
@@ -1666,6 +1668,50 @@ func runC14(c *ev.Ctx) {
 		id++
 		scns = append(scns, Scn{ID: id, WF: wf, Stream: st, Chunk: mon.ChunkPlan{Kind: "whole"}, Note: note})
 	}
+	// many single-shot checks at the same time (one per hardware thread of a server, say), each on its own
+	// stuck-at source: every one of them must be rejected
+	{
+		const G = 64
+		per := 40000
+		if c.Lite() {
+			per = 4000
+		}
+		var accepted, calls int64
+		var first atomic.Value
+		var wg sync.WaitGroup
+		for g := 0; g < G; g++ {
+			wg.Add(1)
+			go func(g int) {
+				defer wg.Done()
+				for k := 0; k < per && atomic.LoadInt64(&accepted) == 0; k++ {
+					nb := []int{40, 64, 320, 1280, 2500, 4096, 16}[(g+k)%7]
+					b := byte(0x00)
+					if (g+k/7)%2 == 1 {
+						b = 0xFF
+					}
+					var ok bool
+					var err error
+					if p, m := guard(func() { ok, err = detect.SingleDetect(constSource(b), nb) }); p {
+						atomic.AddInt64(&accepted, 1)
+						first.Store(fmt.Sprintf("panic: %s", m))
+						return
+					}
+					atomic.AddInt64(&calls, 1)
+					if ok {
+						atomic.AddInt64(&accepted, 1)
+						first.Store(fmt.Sprintf("SingleDetect(stuck-at 0x%02x, %d bytes) = (true, %v) while %d goroutines run single-shot checks", b, nb, err, G))
+						return
+					}
+				}
+			}(g)
+		}
+		wg.Wait()
+		c.Count("concurrent_single_shot_checks_on_stuck_sources", calls)
+		c.Eval(ev.HashStr("c14-concurrent-singles"), true)
+		if accepted > 0 {
+			c.Violation("Single:concurrent stuck-at:accepted", fmt.Sprint(first.Load()), "c14conc", nil)
+		}
+	}
 	var consts []Stream
 	for b := 0; b < 256; b++ {
 		consts = append(consts, Stream{Kind: "const", Byte: b, Tail: "none"})
@@ -1872,4 +1918,14 @@ func runC14(c *ev.Ctx) {
 			c.Sample(sampleScn(sc, r))
 		}
 	}
+}
+
+// constSource is an endless stuck-at source.
+type constSource byte
+
+func (b constSource) Read(p []byte) (int, error) {
+	for i := range p {
+		p[i] = byte(b)
+	}
+	return len(p), nil
 }
